@@ -13,8 +13,8 @@ from ..trace import check_span_tree
 
 ID = "C12"
 LEVEL = "exploration"
-BUDGET = {"quick": 3200, "thorough": 40000}
-SHARDS = {"quick": 8, "thorough": 16}
+BUDGET = {"quick": 6400, "thorough": 40000}
+SHARDS = {"quick": 16, "thorough": 16}
 RULE = (
     "Hypothesis-generated programs: DAGs flat / with an interval nested to depth 1-3 / with 2-3 sibling nested graphs, control-flow "
     "programs (gates, cycles, signals), structured loops (flat and nested); 0-2 failing nodes (also with message-less exceptions), "
